@@ -122,6 +122,10 @@ def _fold(node):
 
         def visit_BinOp(self, n):
             self.generic_visit(n)
+            # [a, b] + [c] -> [a, b, c]   (two list displays joined)
+            if isinstance(n.op, ast.Add) and isinstance(n.left, ast.List) and isinstance(n.right, ast.List) \
+                    and not any(isinstance(e_, ast.Starred) for e_ in n.left.elts + n.right.elts):
+                return ast.copy_location(ast.List(elts=list(n.left.elts) + list(n.right.elts), ctx=ast.Load()), n)
             if isinstance(n.left, ast.Constant) and isinstance(n.right, ast.Constant) and isinstance(n.left.value, int) and isinstance(n.right.value, int) \
                     and not isinstance(n.left.value, bool) and not isinstance(n.right.value, bool):
                 if isinstance(n.op, ast.Add):
